@@ -30,11 +30,12 @@ namespace c15 {
 
 /// Liveness, value and moved-from flag of n destination slots.  For untracked (trivial-ish) types a slot counts as a
 /// live object exactly when the call returned normally.  read_values == false: the values are indeterminate.
+/// reversed: logical slot i is physical slot n-1-i (destination kind DRev).
 template <class T>
-void observe_dst(Obs &o, const T *base, int n, bool read_values = true) {
+void observe_dst(Obs &o, const T *base, int n, bool reversed, bool read_values = true) {
   o.ndst = n;
   for (int i = 0; i < n; ++i) {
-    const T *p = base + i;
+    const T *p = base + (reversed ? n - 1 - i : i);
     o.dalive[i] = Tr<T>::tracked ? Tr<T>::alive(p) : !o.threw;
     if (o.dalive[i] && read_values) {
       o.dval[i] = Tr<T>::val(*p);
@@ -55,8 +56,8 @@ void observe_src(Obs &o, Box &box, int count, const int *ids, bool consumed, int
     const S *p = box.elem(i);
     bool alive = Tr<S>::tracked ? Tr<S>::alive(p) : !(consumed && i < n);
     if (alive && ids[i] >= 0)
-      for (int j = 0; j < o.ndst; ++j)
-        if (o.dalive[j] && Tr<T>::id(dbase + j) == ids[i]) alive = false;
+      for (int j = 0; j < o.ndst; ++j)  // physical order: only membership matters
+        if (Tr<T>::alive(dbase + j) && Tr<T>::id(dbase + j) == ids[i]) alive = false;
     o.salive[i] = alive;
     if (alive) {
       o.sval[i] = Tr<S>::val(*p);
@@ -66,9 +67,9 @@ void observe_src(Obs &o, Box &box, int count, const int *ids, bool consumed, int
 }
 
 template <class T>
-void destroy_alive(T *base, const int *alive, int n) {
+void destroy_alive(T *base, const int *alive, int n, bool reversed = false) {
   for (int i = 0; i < n; ++i)
-    if (alive[i]) (base + i)->~T();
+    if (alive[i]) (base + (reversed ? n - 1 - i : i))->~T();
 }
 
 // =====================================================================================================================
@@ -86,21 +87,21 @@ template <class Impl>
 struct Range<Impl, OP_COPY> {
   template <class Box, class D, class T>
   static void call(Box &s, int n, D d, Obs &o, T *d0) {
-    o.ret_dst = base_ptr(Impl::ucopy(s.it(0), s.it(n), d)) - d0;
+    o.ret_dst = dst_offset(Impl::ucopy(s.it(0), s.it(n), d), d0, n);
   }
 };
 template <class Impl>
 struct Range<Impl, OP_COPY_N> {
   template <class Box, class D, class T>
   static void call(Box &s, int n, D d, Obs &o, T *d0) {
-    o.ret_dst = base_ptr(Impl::ucopy_n(s.it(0), n, d)) - d0;
+    o.ret_dst = dst_offset(Impl::ucopy_n(s.it(0), n, d), d0, n);
   }
 };
 template <class Impl>
 struct Range<Impl, OP_MOVE> {
   template <class Box, class D, class T>
   static void call(Box &s, int n, D d, Obs &o, T *d0) {
-    o.ret_dst = base_ptr(Impl::umove(s.it(0), s.it(n), d)) - d0;
+    o.ret_dst = dst_offset(Impl::umove(s.it(0), s.it(n), d), d0, n);
   }
 };
 template <class Impl>
@@ -109,7 +110,7 @@ struct Range<Impl, OP_MOVE_N> {
   static void call(Box &s, int n, D d, Obs &o, T *d0) {
     std::pair<typename Box::It, D> r = Impl::umove_n(s.it(0), n, d);
     o.ret_src = s.offset(r.first);
-    o.ret_dst = base_ptr(r.second) - d0;
+    o.ret_dst = dst_offset(r.second, d0, n);
   }
 };
 template <class Impl>
@@ -117,7 +118,7 @@ struct Range<Impl, OP_RELOC> {
   template <class Box, class D, class T>
   static void call(Box &s, int n, D d, Obs &o, T *d0) {
     o.consumes = 1;
-    o.ret_dst = base_ptr(Impl::reloc(s.it(0), s.it(n), d)) - d0;
+    o.ret_dst = dst_offset(Impl::reloc(s.it(0), s.it(n), d), d0, n);
   }
 };
 template <class Impl>
@@ -127,7 +128,7 @@ struct Range<Impl, OP_RELOC_N> {
     o.consumes = 1;
     std::pair<typename Box::It, D> r = Impl::reloc_n(s.it(0), n, d);
     o.ret_src = s.offset(r.first);
-    o.ret_dst = base_ptr(r.second) - d0;
+    o.ret_dst = dst_offset(r.second, d0, n);
   }
 };
 
@@ -150,17 +151,17 @@ Obs drive_range(int n, long fault_at, AnyFn thunk) {
     for (int i = 0; i <= n; ++i) ids[i] = Tr<S>::id(src.elem(i));
     arm(fault_at);
     try {
-      call(src, n, DK::template make<T>(dst.data()), o, dst.data());
+      call(src, n, DK::template make<T>(dst.data(), n, 0), o, dst.data());
     } catch (const vf::InjectedFault &) {
       o.threw = 1;
     }
     o.events = disarm();
-    observe_dst(o, dst.data(), n);
+    observe_dst(o, dst.data(), n, DK::reversed);
     observe_src(o, src, n + 1, ids, o.consumes && !o.threw, n, dst.data());
     o.outside_ok = dst.untouched_outside(n);
     obs_ledger(o);
     vf::L().quiet = o.ledger_fails != 0;
-    destroy_alive(dst.data(), o.dalive, n);
+    destroy_alive(dst.data(), o.dalive, n, DK::reversed);
     src.finish(o.salive, n + 1);
   }
   obs_teardown(o);
@@ -192,7 +193,7 @@ struct Fill<Impl, OP_DEF_N> {
   template <class D, class T>
   static void call(D f, D, int n, Obs &o, T *d0) {
     o.indeterminate = std::is_trivially_default_constructible<T>::value;
-    o.ret_dst = base_ptr(Impl::udef_n(f, n)) - d0;
+    o.ret_dst = dst_offset(Impl::udef_n(f, n), d0, n);
   }
 };
 template <class Impl>
@@ -206,7 +207,7 @@ template <class Impl>
 struct Fill<Impl, OP_VAL_N> {
   template <class D, class T>
   static void call(D f, D, int n, Obs &o, T *d0) {
-    o.ret_dst = base_ptr(Impl::uval_n(f, n)) - d0;
+    o.ret_dst = dst_offset(Impl::uval_n(f, n), d0, n);
   }
 };
 
@@ -223,16 +224,16 @@ Obs drive_fill(int n, long fault_at, AnyFn thunk) {
     RawBuf<T> dst;
     arm(fault_at);
     try {
-      call(DK::template make<T>(dst.data()), DK::template make<T>(dst.data() + n), n, o, dst.data());
+      call(DK::template make<T>(dst.data(), n, 0), DK::template make<T>(dst.data(), n, n), n, o, dst.data());
     } catch (const vf::InjectedFault &) {
       o.threw = 1;
     }
     o.events = disarm();
-    observe_dst(o, dst.data(), n, !o.indeterminate);
+    observe_dst(o, dst.data(), n, DK::reversed, !o.indeterminate);
     o.outside_ok = dst.untouched_outside(n);
     obs_ledger(o);
     vf::L().quiet = o.ledger_fails != 0;
-    destroy_alive(dst.data(), o.dalive, n);
+    destroy_alive(dst.data(), o.dalive, n, DK::reversed);
   }
   obs_teardown(o);
   return o;
@@ -259,7 +260,7 @@ template <class Impl>
 struct Destroy<Impl, OP_DESTROY_N> {
   template <class D, class T>
   static void call(D f, D, int n, Obs &o, T *p0) {
-    o.ret_src = base_ptr(Impl::destroy_n(f, n)) - p0;
+    o.ret_src = dst_offset(Impl::destroy_n(f, n), p0, n);
   }
 };
 template <class Impl>
@@ -286,7 +287,7 @@ Obs drive_destroy(int n, long fault_at, AnyFn thunk) {
     for (int i = 0; i <= n; ++i) ids[i] = -1;
     arm(fault_at);
     try {
-      call(DK::template make<T>(box.elem(0)), DK::template make<T>(box.elem(0) + n), n, o, box.elem(0));
+      call(DK::template make<T>(box.elem(0), n, 0), DK::template make<T>(box.elem(0), n, n), n, o, box.elem(0));
     } catch (const vf::InjectedFault &) {
       o.threw = 1;
     }
@@ -360,7 +361,7 @@ Obs drive_single(int, long fault_at, AnyFn thunk) {
       o.threw = 1;
     }
     o.events = disarm();
-    observe_dst(o, dst.data(), 1);
+    observe_dst(o, dst.data(), 1, false);
     observe_src(o, src, 2, ids, o.consumes && !o.threw, 1, dst.data());
     o.outside_ok = dst.untouched_outside(1);
     obs_ledger(o);
@@ -434,7 +435,7 @@ Obs drive_array(int, long fault_at, AnyFn thunk) {
     }
     o.events = disarm();
     const int nd = o.no_dest ? 0 : CNT;
-    observe_dst(o, dst.data(), nd);
+    observe_dst(o, dst.data(), nd, false);
     observe_src(o, src, CNT + 1, ids, o.consumes && !o.threw, CNT, dst.data());
     o.outside_ok = dst.untouched_outside(nd);
     obs_ledger(o);
@@ -491,11 +492,47 @@ void tuple_range(int n) {
   explore(t, range_runner<AmcImpl, OP, T, SK, DK>(), range_runner<RefImpl, OP, T, SK, DK>(),
           std_range<OP, T, SK, DK>(typename HasStd<OP>::type()));
 }
+// Destination kinds crossed with a source kind.  T* always.  The forward iterator with every original source kind; it
+// is left out for the three "random access, not contiguous" sources, where it selects the same per-element code as
+// for the other sources.  The reverse iterator (random access, not contiguous) with those three and with one source
+// of each iterator category (T*, vector, list): the pairs on which a "both random access" shortcut differs from
+// "both pointers".  (The full cross product doubles the compile time for no further branch of memory.hpp.)
+template <class SK>
+struct UseFwdDst : std::true_type {};
+template <class SK>
+struct UseRevDst : std::false_type {};
+template <>
+struct UseFwdDst<SRev> : std::false_type {};
+template <>
+struct UseFwdDst<SRevVec> : std::false_type {};
+template <>
+struct UseFwdDst<SDeqX> : std::false_type {};
+template <>
+struct UseRevDst<SRev> : std::true_type {};
+template <>
+struct UseRevDst<SRevVec> : std::true_type {};
+template <>
+struct UseRevDst<SDeqX> : std::true_type {};
+template <>
+struct UseRevDst<SPtr> : std::true_type {};
+template <>
+struct UseRevDst<SVec> : std::true_type {};
+template <>
+struct UseRevDst<SList> : std::true_type {};
+
+template <int OP, class T, class SK, class DK>
+void tuple_range_if(int n, std::true_type) {
+  tuple_range<OP, T, SK, DK>(n);
+}
+template <int OP, class T, class SK, class DK>
+void tuple_range_if(int, std::false_type) {}
+
 template <int OP, class T, class SK>
 void group_range() {
   for (int n = 0; n <= cfg().maxlen; ++n) {
     tuple_range<OP, T, SK, DPtr>(n);
-    tuple_range<OP, T, SK, DFwd>(n);
+    tuple_range_if<OP, T, SK, DFwd>(n, typename UseFwdDst<SK>::type());
+    tuple_range_if<OP, T, SK, DRev>(n, typename UseRevDst<SK>::type());
   }
 }
 template <int OP, class T, class SK>
@@ -582,6 +619,9 @@ void add_copy_like() {  // uninitialized_copy/_n, uninitialized_move/_n: every s
   add_range<OP, T, SDeq>();
   add_range<OP, T, SList>();
   add_range<OP, T, SFwd>();
+  add_range<OP, T, SRev>();
+  add_range<OP, T, SRevVec>();
+  add_range<OP, T, SDeqX>();
   add_range<OP, T, SMove<SPtr> >();
   add_range<OP, T, SMove<SVec> >();
   add_range<OP, T, SMove<SDeq> >();
@@ -596,6 +636,9 @@ void add_relocate() {  // sources must be destroyable lvalues: no const pointer,
   add_range<OP, T, SDeq>();
   add_range<OP, T, SList>();
   add_range<OP, T, SFwd>();
+  add_range<OP, T, SRev>();
+  add_range<OP, T, SRevVec>();
+  add_range<OP, T, SDeqX>();
 }
 
 template <class T>
@@ -636,7 +679,7 @@ template <class T>
 void add_type_move_only() {
   add_rvalue_sources<OP_COPY, T>();
   add_rvalue_sources<OP_COPY_N, T>();
-  add_relocate<OP_MOVE, T>();  // the five lvalue source kinds
+  add_relocate<OP_MOVE, T>();  // the lvalue source kinds
   add_relocate<OP_MOVE_N, T>();
   add_rvalue_sources<OP_MOVE, T>();
   add_rvalue_sources<OP_MOVE_N, T>();
